@@ -94,9 +94,7 @@ AllowedSrc(k) ==
 Settings(s) == [all |-> CAll(s), prefix |-> CPrefix(s)]
 
 \* ------------------------------------------------------------------ code-shaped: the package table
-Absent == [present |-> FALSE, marker |-> 0, rec |-> "U", all |-> "U", excl |-> 0, prefix |-> ""]
-Own(k) == [present |-> TRUE, marker |-> k, rec |-> W.rec[k], all |-> W.all[k], excl |-> W.excl[k],
-           prefix |-> IF W.sn[k] THEN "N" \o ToString(k) ELSE ""]
+\* (Absent, OwnOf: see "choosing the world" below)
 \* NewDefaultKoanf: every scalar has a default at the top level
 RootCfg == [present |-> TRUE, marker |-> 0, rec |-> IF W.root.rec = "U" THEN "F" ELSE W.root.rec,
             all |-> IF W.root.all = "U" THEN "F" ELSE W.root.all, excl |-> W.root.excl, prefix |-> "Mock"]
@@ -131,14 +129,21 @@ Tup(n, F(_)) == CASE n = 1 -> <<F(1)>> [] n = 2 -> <<F(1), F(2)>> [] n = 3 -> <<
                   [] n = 4 -> <<F(1), F(2), F(3), F(4)>> [] n = 5 -> <<F(1), F(2), F(3), F(4), F(5)>>
 Const(n, v) == Tup(n, LAMBDA k : v)
 
-\* (operators with a parameter: TLC precomputes zero-arity constant definitions, and only the family in use
-\*  should be enumerated)
-DiscoveryWorlds(mx) ==
-  UNION {{[n |-> n, par |-> p, kind |-> kv,
-           on |-> Tup(n, LAMBDA k : k = 1), rec |-> Tup(n, LAMBDA k : IF k = 1 THEN rm[1] ELSE "U"), all |-> Const(n, "U"),
-           sn |-> Tup(n, LAMBDA k : k = 1), excl |-> Tup(n, LAMBDA k : IF k = 1 THEN xp[1] ELSE 0),
-           root |-> [rec |-> rm[2], all |-> "T", excl |-> xp[2]]] :
-            p \in Trees(n), kv \in KindVecs(n), rm \in {<<"T", "U">>, <<"U", "T">>}, xp \in ExclPairs} : n \in 2..mx}
+\* Worlds are not enumerated as one big set of initial states (TLC computes initial states in one thread and
+\* far too slowly for 10^4..10^5 records): a behaviour first CHOOSES its world in three small steps (tree, kinds,
+\* configuration), then runs Initialize on it.  Which configurations are offered depends on the family.
+Blank(n, p) == [n |-> n, par |-> p, kind |-> Const(n, "go"), on |-> Const(n, FALSE), rec |-> Const(n, "U"),
+                all |-> Const(n, "U"), sn |-> Const(n, FALSE), excl |-> Const(n, 0),
+                root |-> [rec |-> "U", all |-> "U", excl |-> 0]]
+EmptyWorld == Blank(1, <<0>>)
+
+\* family "discovery": only the top package is configured (recursive, at either level); every kind of directory
+DiscoveryConfigs(w) ==
+  {[n |-> w.n, par |-> w.par, kind |-> w.kind,
+    on |-> Tup(w.n, LAMBDA k : k = 1), rec |-> Tup(w.n, LAMBDA k : IF k = 1 THEN rm[1] ELSE "U"), all |-> Const(w.n, "U"),
+    sn |-> Tup(w.n, LAMBDA k : k = 1), excl |-> Tup(w.n, LAMBDA k : IF k = 1 THEN xp[1] ELSE 0),
+    root |-> [rec |-> rm[2], all |-> "T", excl |-> xp[2]]] :
+     rm \in {<<"T", "U">>, <<"U", "T">>}, xp \in ExclPairs}
 
 \* payload: which of all / structname are written where (they travel with the settings, independent of discovery)
 Payload(v, n, onset) ==
@@ -157,27 +162,71 @@ InheritWorld(n, p, onset, rv, rr, pl, xpl) ==
    all |-> pl.all, sn |-> pl.sn,
    excl |-> Tup(n, LAMBDA k : IF k = xpl.at THEN xpl.v ELSE 0),
    root |-> [rec |-> rr, all |-> pl.rall, excl |-> xpl.rv]]
-InheritWorlds(mx) ==
-  UNION {UNION {{InheritWorld(n, p, onset, rv, rr, Payload((n + Cardinality(onset) + pv) % 3, n, onset), xpl) :
-                   p \in Trees(n), rv \in [onset -> {"U", "T", "F"}], rr \in {"U", "T"}, pv \in PayloadVariants,
-                   xpl \in ExclPlacements(onset)} :
-                 onset \in {s \in SUBSET (1..n) : s # {} /\ Cardinality(s) <= 3}} : n \in 2..mx}
+OnSets(n) == {s \in SUBSET (1..n) : s # {} /\ Cardinality(s) <= 3}
 
-WellFormed(w) ==
-  /\ DOMAIN w.par = 1..w.n /\ DOMAIN w.kind = 1..w.n
-  /\ \A k \in 1..w.n : w.on[k] => w.kind[k] = "go"
+\* family "inherit": all directories have Go files; up to three configured packages, recursive or not, at any depth
+InheritConfigs(w) ==
+  UNION {{InheritWorld(w.n, w.par, onset, rv, rr, Payload((w.n + Cardinality(onset) + pv) % 3, w.n, onset), xpl) :
+            rv \in [onset -> {"U", "T", "F"}], rr \in {"U", "T"}, pv \in PayloadVariants, xpl \in ExclPlacements(onset)} :
+          onset \in OnSets(w.n)}
 
-Worlds == CASE Family = "discovery" -> {w \in DiscoveryWorlds(MaxNodes) : WellFormed(w)}
-            [] Family = "inherit"   -> {w \in InheritWorlds(MaxNodes) : WellFormed(w)}
-            [] OTHER                -> {}
+\* family "deep": only trees with exactly MaxNodes directories, recursion on or not written, one exclusion variant
+DeepConfigs(w) ==
+  UNION {{InheritWorld(w.n, w.par, onset, rv, "U", Payload(0, w.n, onset), xpl) :
+            rv \in [onset -> {"U", "T"}],
+            xpl \in {[at |-> 0, v |-> 0, rv |-> 0], [at |-> CHOOSE a \in onset : \A b \in onset : a <= b, v |-> 2, rv |-> 0]}} :
+          onset \in OnSets(w.n)}
+
+\* family "order" (Order.tla, C06): a generation profile g is attached; see Order.tla for its meaning
+WithG(w, g) == [n |-> w.n, par |-> w.par, kind |-> w.kind, on |-> w.on, rec |-> w.rec, all |-> w.all, sn |-> w.sn,
+                excl |-> w.excl, root |-> w.root, g |-> g]
+Profiles == {[mode |-> m, layout |-> l, ents |-> e] :
+               m \in {"none", "same", "differ-valid", "differ-invalid"}, l \in {"perpkg", "periface"}, e \in {0, 2}}
+OrderConfigs(w) ==
+  UNION {{WithG(InheritWorld(w.n, w.par, onset, rv, "U", Payload(pv, w.n, onset), xpl), g) :
+            rv \in [onset -> {"U", "T"}],
+            pv \in IF Cardinality(onset) = 1 THEN {0, 2} ELSE {0},     \* 2: `all` only on odd packages (maybe nothing to do)
+            xpl \in {[at |-> 0, v |-> 0, rv |-> 0], [at |-> CHOOSE a \in onset : \A b \in onset : a <= b, v |-> 1, rv |-> 0]},
+            g \in Profiles} :
+          onset \in OnSets(w.n)}
+
+WellFormed(w) == \A k \in 1..w.n : w.on[k] => w.kind[k] = "go"
+
+\* ------------------------------------------------------------------ choosing the world
+Absent == [present |-> FALSE, marker |-> 0, rec |-> "U", all |-> "U", excl |-> 0, prefix |-> ""]
+OwnOf(w, k) == [present |-> TRUE, marker |-> k, rec |-> w.rec[k], all |-> w.all[k], excl |-> w.excl[k],
+                prefix |-> IF w.sn[k] THEN "N" \o ToString(k) ELSE ""]
+
+Init == /\ W = EmptyWorld /\ pk = <<Absent>>
+        /\ pc = "choose-tree" /\ pass = 1 /\ pending = {} /\ recq = << >>
+
+ChooseTree == /\ pc = "choose-tree"
+              /\ \E n \in (IF Family = "deep" THEN {MaxNodes} ELSE 2..MaxNodes) : \E p \in Trees(n) : W' = Blank(n, p)
+              /\ pc' = "choose-kinds"
+              /\ UNCHANGED <<pk, pass, pending, recq>>
+
+ChooseKinds == /\ pc = "choose-kinds"
+               /\ IF Family = "discovery" THEN \E kv \in KindVecs(W.n) : W' = [W EXCEPT !.kind = kv] ELSE W' = W
+               /\ pc' = "choose-config"
+               /\ UNCHANGED <<pk, pass, pending, recq>>
+
+ConfigChoices == CASE Family = "discovery" -> DiscoveryConfigs(W)
+                   [] Family = "inherit"   -> InheritConfigs(W)
+                   [] Family = "deep"      -> DeepConfigs(W)
+                   [] Family = "order"     -> OrderConfigs(W)
+                   [] OTHER                -> {}
+
+ChooseConfig == /\ pc = "choose-config"
+                /\ \E w \in ConfigChoices :
+                     /\ WellFormed(w)
+                     /\ W' = w
+                     /\ pk' = [k \in 1..w.n |-> IF w.on[k] THEN OwnOf(w, k) ELSE Absent]
+                     /\ pending' = {k \in 1..w.n : w.on[k]}
+                /\ pc' = "loop1" /\ pass' = 1 /\ recq' = << >>
+
+Choosing == pc \in {"choose-tree", "choose-kinds", "choose-config"}
 
 \* ------------------------------------------------------------------ code-shaped: RootConfig.Initialize, twice
-Init == /\ W \in Worlds
-        /\ pk = [k \in 1..W.n |-> IF W.on[k] THEN Own(k) ELSE Absent]
-        /\ pc = "loop1" /\ pass = 1
-        /\ pending = {k \in 1..W.n : W.on[k]}
-        /\ recq = << >>
-
 \* config.go:342-364, one iteration of `for pkgName, pkgConfig := range c.Packages`
 Loop1(p) == /\ pc = "loop1" /\ p \in pending
             /\ LET m == Merge(RootCfg, pk[p]) IN
@@ -209,7 +258,7 @@ EndPass == /\ pc = "loop2" /\ recq = << >>
                           ELSE /\ pass' = 2 /\ pc' = "done" /\ pending' = {}
            /\ UNCHANGED <<W, pk, recq>>
 
-Next == (\E p \in pending : Loop1(p)) \/ SortRecursive \/ Loop2 \/ EndPass
+Next == ChooseTree \/ ChooseKinds \/ ChooseConfig \/ (\E p \in pending : Loop1(p)) \/ SortRecursive \/ Loop2 \/ EndPass
 Spec == Init /\ [][Next]_vars
 
 \* ------------------------------------------------------------------ Impl => Contract
@@ -219,9 +268,10 @@ TableOK == \A k \in 1..W.n :
              /\ Src(k) # 0 => /\ (pk[k].all = "T") = Settings(Src(k)).all
                               /\ pk[k].prefix = Settings(Src(k)).prefix
 \* the table is observable after the first Initialize (showconfig) and after the second (the run)
-AfterInitialize == (pc = "loop2" /\ recq = << >>) \/ pc = "done"
+AfterInitialize == ~Choosing /\ ((pc = "loop2" /\ recq = << >>) \/ pc = "done")
 ImplRefinesContract == AfterInitialize => TableOK
-TypeOK == pc \in {"loop1", "sort", "loop2", "done"} /\ pass \in {1, 2} /\ pending \subseteq 1..W.n
+TypeOK == pc \in {"choose-tree", "choose-kinds", "choose-config", "loop1", "sort", "loop2", "done"} /\ pass \in {1, 2}
+          /\ pending \subseteq 1..W.n
 
 \* ------------------------------------------------------------------ export
 RECURSIVE PathLabels(_)
